@@ -383,6 +383,28 @@ let run (t : string array) : string =
   | "exit_code" ->
     let rs = List.map (function "ok" -> RsOk | "failed" -> RsFailed | _ -> RsSkipped) (if t.(1) = "-" then [] else split_on ',' t.(1)) in
     Printf.sprintf "ok %d" (int_of_z (exit_code rs))
+  (* io_plan <in: path|stdin|missing> <out: none|stdout|same|other> <preserve 0|1> <compute: err|improved|same> <fault: -|fN|kN> *)
+  | "io_plan" ->
+    let q = z_of_int 1 and d = z_of_int 2 in
+    let fin = { f_content = [zb 1; zb 2; zb 3]; f_mode = z_of_int 384; f_mtime = z_of_int 1000; f_atime = z_of_int 900 } in
+    let fs = if t.(1) = "missing" then [] else [(q, fin)] in
+    let inp = if t.(1) = "stdin" then IStdin else IPath q in
+    let pres = t.(3) = "1" in
+    let outp = match t.(2) with "none" -> ONone | "stdout" -> OStdout | "same" -> OPath (None, pres) | _ -> OPath (Some d, pres) in
+    let compute _ = match t.(4) with "err" -> CErr | "improved" -> COut ([zb 9], false) | _ -> COut ([zb 9; zb 9; zb 9; zb 9], true) in
+    let flt = if t.(5) = "-" then NoFault else
+        let n = nat_of_int (int_of_string (String.sub t.(5) 1 (String.length t.(5) - 1))) in
+        if t.(5).[0] = 'f' then FailAt n else KillAt n in
+    let r = optimize_io compute [zb 1; zb 2; zb 3] (z_of_int 2000) flt fs inp outp in
+    let opn = function
+      | OStat _ -> "stat" | OOpenRead _ -> "open" | ORead _ -> "read" | OReadStdin -> "readstdin" | OCompute -> "compute"
+      | OWriteStdout -> "wstdout" | OFlushStdout -> "fstdout" | OCreate p -> if int_of_z p = 1 then "create-in" else "create-out"
+      | OChmod _ -> "chmod" | OWrite _ -> "write" | OFlush _ -> "flush" | OClose _ -> "close" | OUtimes _ -> "utimes" in
+    let (fs', so) = r.r_world in
+    let fdesc p = match lookup fs' (z_of_int p) with None -> "absent" | Some f ->
+      Printf.sprintf "%s:%d:%d" (hex f.f_content) (int_of_z f.f_mode) (int_of_z f.f_mtime) in
+    Printf.sprintf "ok %s result=%s in=%s out=%s stdout=%s" (String.concat "," (List.map opn r.r_trace))
+      (match r.r_result with Done_ok -> "ok" | Done_err -> "err" | Killed -> "killed") (fdesc 1) (fdesc 2) (hex so)
   | "preset" -> "ok " ^ fmt_opts (from_preset (z_of_int (int_of_string t.(1))))
   | "default_opts" -> "ok " ^ fmt_opts default_options
   | "crc32" -> Printf.sprintf "ok %d" (int_of_z (crc32 (unhex t.(1))))
